@@ -8,8 +8,8 @@ against CPython (`eval` of the real hint with the typing names in scope, then
 a subscription `h[a, b]` (`List[…]`, `Dict[k, v]`, `Optional[…]`, `Union[…]`, `Literal[…]`), and a
 PEP 604 union `a | b`.  `denote` maps to the normal form `Ty`:
 List/list/Sequence ↦ list, Set/set/FrozenSet ↦ set, Dict/dict/Mapping ↦ dict, and
-Optional/Union/`|` ↦ one flattened union without repetitions, `None` recorded as a flag
-(so the position of `None` among the alternatives is immaterial).
+Optional/Union/`|` ↦ one flattened union without repetitions, its alternatives in canonical order
+(a set), `None` recorded as a flag (so the position of `None` among the alternatives is immaterial).
 -/
 namespace Dcg.Sem.Typing
 
@@ -99,37 +99,6 @@ def dedup : List Ty → List Ty → List Ty
   | [], _ => []
   | t :: ts, seen => if seen.contains t then dedup ts seen else t :: dedup ts (t :: seen)
 
-def mkTy (alts : List Ty) (hasNone : Bool) : Ty :=
-  match dedup alts [], hasNone with
-  | [a], false => a
-  | as, n => .union as n
-
-mutual
-/-- the alternatives other than `None`, flattened through Optional / Union / `|` -/
-def alts : TExpr → List Ty
-  | .atom s => if s = sNone then [] else [normBare s]
-  | .app h args =>
-    if h = sOptional ∨ h = sUnion then altsL args
-    else [.app (normHead h) (denoteL args)]
-  | .bor args => altsL args
-def altsL : List TExpr → List Ty
-  | [] => []
-  | e :: es => alts e ++ altsL es
-/-- is `None` one of the alternatives -/
-def hasNone : TExpr → Bool
-  | .atom s => s = sNone
-  | .app h args => if h = sOptional then true else if h = sUnion then hasNoneL args else false
-  | .bor args => hasNoneL args
-def hasNoneL : List TExpr → Bool
-  | [] => false
-  | e :: es => hasNone e || hasNoneL es
-def denoteL : List TExpr → List Ty
-  | [] => []
-  | e :: es => mkTy (alts e) (hasNone e) :: denoteL es
-end
-
-def denote (e : TExpr) : Ty := mkTy (alts e) (hasNone e)
-
 def strLt : Str → Str → Bool
   | [], [] => false
   | [], _ :: _ => true
@@ -159,5 +128,49 @@ def Ty.showL : List Ty → List Str
   | [] => []
   | t :: ts => Ty.show t :: Ty.showL ts
 end
+
+/-- the alternatives of a union are a set: kept in the order of their canonical texts, so that two
+unions with the same alternatives are the same normal form (`Union[int, str]` = `Union[str, int]`, as
+`typing` compares them) and a union nested in a container is recognised as a repetition by `dedup` -/
+def insertTy (x : Ty) : List Ty → List Ty
+  | [] => [x]
+  | y :: ys => if strLt y.show x.show then y :: insertTy x ys else x :: y :: ys
+
+def sortTys (xs : List Ty) : List Ty := xs.foldr insertTy []
+
+@[simp] theorem sortTys_nil : sortTys [] = [] := rfl
+@[simp] theorem sortTys_singleton (t : Ty) : sortTys [t] = [t] := rfl
+
+def mkTy (alts : List Ty) (hasNone : Bool) : Ty :=
+  match dedup alts [], hasNone with
+  | [a], false => a
+  | as, n => .union (sortTys as) n
+
+
+mutual
+/-- the alternatives other than `None`, flattened through Optional / Union / `|` -/
+def alts : TExpr → List Ty
+  | .atom s => if s = sNone then [] else [normBare s]
+  | .app h args =>
+    if h = sOptional ∨ h = sUnion then altsL args
+    else [.app (normHead h) (denoteL args)]
+  | .bor args => altsL args
+def altsL : List TExpr → List Ty
+  | [] => []
+  | e :: es => alts e ++ altsL es
+/-- is `None` one of the alternatives -/
+def hasNone : TExpr → Bool
+  | .atom s => s = sNone
+  | .app h args => if h = sOptional then true else if h = sUnion then hasNoneL args else false
+  | .bor args => hasNoneL args
+def hasNoneL : List TExpr → Bool
+  | [] => false
+  | e :: es => hasNone e || hasNoneL es
+def denoteL : List TExpr → List Ty
+  | [] => []
+  | e :: es => mkTy (alts e) (hasNone e) :: denoteL es
+end
+
+def denote (e : TExpr) : Ty := mkTy (alts e) (hasNone e)
 
 end Dcg.Sem.Typing
